@@ -1495,6 +1495,52 @@ def r24_optional_results(ctx, rule):
                              'meets None where it expects a container aborts the whole training run on the first such password')
 
 
+def r25_recursive_merge(ctx, rule):
+    """What the recursive call of detect_keyboard_walk found in the rest of the password is merged into the caller's results as a
+    whole: the sections into the section list, the walks into the found list (the list the K counters are fed from) - each merge
+    unconditional, or guarded by nothing but the emptiness of what is merged.  (Seed C06-ga guarded `found_list.extend(temp_found)`
+    by `temp_detected_keyboards`: when the rest contains a character on no layout, the second walk is labelled K<n> in the base
+    structure and never counted in Keyboard/<n>.txt.)"""
+    q = DET + 'keyboard_walk.py::detect_keyboard_walk'
+    fn = ctx.fn(q)
+    mod = ctx.repo.modules[q.partition('::')[0]]
+    ctx.stats['functions'].add(q)
+    recs = [st for st in walk_local(fn) if isinstance(st, ast.Assign) and isinstance(st.value, ast.Call)
+            and call_name(st.value) == 'detect_keyboard_walk' and len(st.targets) == 1 and isinstance(st.targets[0], ast.Tuple)]
+    if not ctx.floor(rule, q, len(recs), 1, 'recursive calls with an unpacked result'):
+        return
+    ok = True
+    n = 0
+    for rec in recs:
+        names = [e.id for e in rec.targets[0].elts if isinstance(e, ast.Name)]
+        base = {U(t) + str(pol) for t, pol in path_conditions(mod, rec)}
+        for st in walk_local(fn):
+            merged = None
+            if isinstance(st, ast.Expr) and isinstance(st.value, ast.Call) and isinstance(st.value.func, ast.Attribute) \
+                    and st.value.func.attr == 'extend' and st.value.args and isinstance(st.value.args[0], ast.Name) and st.value.args[0].id in names:
+                merged = st.value.args[0].id
+            elif isinstance(st, ast.AugAssign) and isinstance(st.op, ast.Add) and isinstance(st.value, ast.Name) and st.value.id in names:
+                merged = st.value.id
+            if merged is None:
+                continue
+            n += 1
+            for t, pol in path_conditions(mod, st):
+                if U(t) + str(pol) in base:
+                    continue
+                own = {x.id for x in ast.walk(t) if isinstance(x, ast.Name)} - {'len'}
+                if own == {merged}:
+                    continue            # `if temp_found:` / `if len(temp_found) > 0:` - merging nothing is no merge
+                if any(U(t) == U(t2) for t2, _ in path_conditions(mod, rec)):
+                    continue
+                ok = False
+                ctx.bad(rule, q, '%s is merged only if %s%s' % (merged, '' if pol else 'not ', U(t)[:50]),
+                        'a walk the recursive call labelled K<n> in the section list is in the found list too: the counters are fed from the '
+                        'found list, the base structure from the section list - a merge that depends on anything but the merged list itself '
+                        'lets the two disagree', None, st, firm=True)
+    if ctx.floor(rule, q, n, 2, 'merges of the recursive result') and ok:
+        ctx.ok(rule, q, 'the %d merges of the recursive result are unconditional or guarded by the emptiness of the merged list only' % n)
+
+
 def rules(tier):
     return [('C05.R1', r1_splice_discipline), ('C05.R2', r2_slice_tiling), ('C05.R4', r4_multiword_parts),
             ('C05.R5', r5_totality), ('C05.R6', r6_counter_pairing), ('C05.R7', r7_index_space), ('C05.R8', r8_constants),
@@ -1517,7 +1563,9 @@ def rules(tier):
             # C05-fb: 'one row up' folded into 'one row down' under abs()
             ('C05.R23', r23_adjacency_kernel),
             # C05-fa: find_keyboard_row_column returns None for blanks; one of three uses in the caller is guarded
-            ('C05.R24', r24_optional_results)]
+            ('C05.R24', r24_optional_results),
+            # C06-ga: the walks of the recursive call merged only when the recursive call detected a layout
+            ('C05.R25', r25_recursive_merge)]
 
 
 META = {
